@@ -43,7 +43,11 @@ Definition check (c : c04case) : verdict :=
       let lay := layout_ix li in
       let m := bms_read tbl lay max_keys lines in
       let wf := wf_bms_lines lay lines in
-      {| corr_ok := match m, out with
+      (* every well-formed text inside the guards must lie in the decidable domain of the theorem bms_read_denotes
+         (Proofs/BMSDenoteProofs.v): this evaluates, per case, the one hypothesis of that theorem that is not proved from
+         wf_bms_lines -- the reader's line loop collects exactly the objects the format assigns to the text *)
+      let dom := negb (wf && read_guards tbl lines) || read_theorem_domain tbl lay max_keys lines in
+      {| corr_ok := dom && match m, out with
                     | None, None => true
                     | Some a, Some b => chart_close tol a b
                     | _, _ => false
@@ -54,7 +58,7 @@ Definition check (c : c04case) : verdict :=
 
 (* the guard of the read theorem (used to classify a failing case; not part of wf) *)
 Definition guards (c : c04case) : bool :=
-  match c with CRead _ li lines _ => tempo_on_grid tbl lines end.
+  match c with CRead _ li lines _ => read_guards tbl lines end.
 
 Fixpoint failing_go (i : nat) (l : list c04case) (acc : list nat * list nat * list nat)
   : list nat * list nat * list nat :=
